@@ -78,8 +78,99 @@ def same_cols_index_exists(tr, where):
     return 'same-cols-constraint-exists' if kinds else ''
 
 
+def hinted_programs(name, project, level, stats, violations):
+    """For every depth-1 successor t of the start s (per the reference
+    model), execute the *hinted* evolution Diff(sig_s, sig_t).evolution()
+    from s and compare with the freshly created t."""
+    from django_evolution.diff import Diff
+    from django_evolution.placeholders import BasePlaceholder
+    from vf import refstate as R, bootstrap as B, drivers as D
+    from vf import alphabet as AL, mutlang as ML, observe as O
+    from vf import materialize as MZ
+    ent_s = R.fresh(project)
+    for label, mj in AL.enabled(project, level=level):
+        if mj[0] in ('SQLBarrier', 'RenameAppLabel', 'DeleteApplication'):
+            continue
+        target = ML.apply(project, label, mj)
+        ent_t = R.fresh(target)
+        MZ.install(target)
+        sig_s, sig_t = R.load_sig(ent_s['sig']), R.load_sig(ent_t['sig'])
+        try:
+            hint = Diff(sig_s, sig_t).evolution()
+        except Exception:
+            continue        # C05's business
+        muts, steps = [], []
+        skip = False
+        for al, ms in hint.items():
+            for m in ms:
+                if isinstance(getattr(m, 'initial', None), BasePlaceholder):
+                    skip = True
+                muts.append(m)
+                steps.append((al, ['Hinted', type(m).__name__]))
+        stats['hinted_programs'] = stats.get('hinted_programs', 0) + 1
+        if skip or not muts:
+            stats['hinted_skipped'] = stats.get('hinted_skipped', 0) + 1
+            continue
+        B.restore(ent_s['image'], 'default')
+        B.reset_globals()
+        res = D.d1(sig_s, steps, real=muts)
+        shape = '+'.join(sorted(set(type(m).__name__ for m in muts)))
+        replay = {'start': project, 'rows': None, 'hinted_target': target,
+                  'steps': []}
+        fps = []
+        if not res.ok:
+            if res.exc_type in D.REFUSALS and res.stage == 'generate':
+                continue
+            fps.append(('C01|%s|%s|hinted:%s' % (
+                'crash' if res.stage == 'generate' else 'sql-error',
+                res.exc_type, shape), {'error': str(res.exc)[:300],
+                                        'hint': str(hint)[:300]}))
+        else:
+            ok, _d = R.sig_equal(res.sig, sig_t, ignore_upgrade_method=True)
+            if not ok:
+                continue    # the hint does not resolve: C05's business
+            disc = EA.schema_discrepancies(O.schema_dump('default'),
+                                           ent_t['schema'], project, target)
+            rebuilt = bool(D.rebuilds(res.statements))
+            seen = set()
+            for dk, owner, where in disc:
+                if rebuilt:
+                    fp = 'C01|schema-equals-fresh|%s:%s|rebuild|*' % (dk,
+                                                                     owner)
+                else:
+                    fp = 'C01|schema-equals-fresh|%s:%s|in-place|hinted:%s' \
+                        % (dk, owner, shape)
+                    if dk == 'index-missing':
+                        ctx = same_cols_index_exists(None, where)
+                        if ctx:
+                            fp += '|' + ctx
+                if fp not in seen:
+                    seen.add(fp)
+                    fps.append((fp, {'where': where,
+                                     'hint': str(hint)[:300]}))
+        for fp, detail in fps:
+            ent = violations.get(fp)
+            size = len(S.canon(replay))
+            if ent is None:
+                violations[fp] = {'count': 1, 'exemplar': replay,
+                                  'detail': detail, 'size': size}
+            else:
+                ent['count'] += 1
+                if size < ent['size']:
+                    ent.update(exemplar=replay, detail=detail, size=size)
+
+
 def work(task):
     name, project, depth, level, maxt = task
+    if depth == 'hinted':
+        stats = {'states': 0, 'transitions': 0, 'validated': 0, 'refused': 0,
+                 'gate': 0, 'violating_transitions': 0, 'dedup_hits': 0,
+                 'by_kind': {}, 'statuses': {}, 'rebuild_transitions': 0,
+                 'capped': False, 'samples': [], 'gate_samples': [],
+                 'refused_samples': [], 'max_depth': 0, 'starts': 0}
+        violations = {}
+        hinted_programs(name, project, level, stats, violations)
+        return name, stats, violations
     stats, violations = EA.bfs(project, depth, judge, level=level,
                                max_transitions=maxt)
     stats['starts'] = 1
@@ -94,7 +185,11 @@ def tasks_for(tier):
         for name, p in starts.s1(fieldsets=('V1',),
                                  metas=('none', 'tbl')):
             tasks.append((name + '-d2', p, 2, 'lite', None))
+        for name, p in starts.s1() + starts.s2() + starts.s3():
+            tasks.append((name + '-hinted', p, 'hinted', 'lite', None))
     else:
+        for name, p in starts.s1() + starts.s2() + starts.s3():
+            tasks.append((name + '-hinted', p, 'hinted', 'full', None))
         for name, p in starts.s1() + starts.s2() + starts.s3():
             tasks.append((name, p, 2, 'full', None))
         for name, p in starts.s1(fieldsets=('V1',), metas=('none', 'ut',
@@ -131,7 +226,11 @@ def run(tier, seed, confirm=True):
         'dedup_hits': total['dedup_hits'],
         'max_depth': total['max_depth'],
         'bounds': {'tier': tier,
-                   'tasks': [(t[0], 'depth=%d' % t[2], t[3]) for t in tasks]},
+                   'tasks': [(t[0], 'depth=%s' % t[2], t[3]) for t in tasks]},
+        'hinted_programs_executed': total.get('hinted_programs', 0) -
+        total.get('hinted_skipped', 0),
+        'hinted_programs_skipped_placeholder_or_empty':
+            total.get('hinted_skipped', 0),
     }
     print('C01 %s: %d starts, %d states, %d transitions (%d rebuilds), '
           'statuses %s' % (tier, total['starts'], total['states'],
@@ -150,6 +249,17 @@ def run(tier, seed, confirm=True):
 def replay(path):
     doc = common.load_replay(path)
     r = doc['replay']
+    if 'hinted_target' in r:
+        viol = {}
+        for level in ('lite', 'full'):
+            hinted_programs('replay', r['start'], level, {}, viol)
+        for fp, ent in viol.items():
+            print('  %s %s' % (fp, str(ent['detail'])[:300]))
+        if doc['fingerprint'] in viol:
+            print('REPRODUCED %s' % doc['fingerprint'])
+            return 1
+        print('NOT-REPRODUCED %s' % doc['fingerprint'])
+        return 0
     node = EA.start_node(r['start'], r.get('rows'))
     fps = []
     for step in r['steps']:
